@@ -150,6 +150,21 @@ impl MErr {
 
 type Table = BTreeMap<String, Option<String>>;
 
+/// IEEE 1800-2017 40.3.1 predefined coverage macros: defined at the start of every run, and
+/// re-installed (if absent) whenever a nested run starts: an included file, a macro expansion
+pub const PREDEFINED: &[(&str, &str)] = &[
+    ("SV_COV_START", "0"), ("SV_COV_STOP", "1"), ("SV_COV_RESET", "2"), ("SV_COV_CHECK", "3"), ("SV_COV_MODULE", "10"),
+    ("SV_COV_HIER", "11"), ("SV_COV_ASSERTION", "20"), ("SV_COV_FSM_STATE", "21"), ("SV_COV_STATEMENT", "22"),
+    ("SV_COV_TOGGLE", "23"), ("SV_COV_OVERFLOW", "-2"), ("SV_COV_ERROR", "-1"), ("SV_COV_NOCOV", "0"), ("SV_COV_OK", "1"),
+    ("SV_COV_PARTIAL", "2"),
+];
+
+fn reinstall_predefined(table: &mut Table) {
+    for (k, v) in PREDEFINED {
+        table.entry(k.to_string()).or_insert_with(|| Some(v.to_string()));
+    }
+}
+
 struct Model<'a> {
     vfs: Arc<Vfs>,
     /// structured content by normalised path
@@ -214,6 +229,7 @@ impl<'a> Model<'a> {
 
     fn file(&mut self, raw: &str, table: &mut Table) -> Result<(), MErr> {
         let lines = self.read_file(raw)?;
+        reinstall_predefined(table);
         self.lines(lines, table)
     }
 
@@ -238,8 +254,14 @@ impl<'a> Model<'a> {
                     None => return Err(MErr::DefineNotFound(name.clone())),
                     Some(None) => {}
                     Some(Some(b)) => {
+                        // the expansion is a nested run: it starts from the predefined set
+                        let pre = name.starts_with("SV_COV_");
+                        let b = b.clone();
+                        reinstall_predefined(table);
                         if b.starts_with("v_") {
                             self.out.push(b.clone());
+                        } else if pre || b.chars().all(|c| c.is_ascii_digit() || c == '-') {
+                            // a predefined constant: expands to a number, no marker token
                         } else {
                             return Err(MErr::Unmodelled(format!("usage of {} with body {}", name, b)));
                         }
@@ -248,6 +270,7 @@ impl<'a> Model<'a> {
                 Line::UsageInc { name } => match table.get(name).cloned() {
                     None => return Err(MErr::DefineNotFound(name.clone())),
                     Some(Some(b)) if b.starts_with("`include \"") => {
+                        reinstall_predefined(table);
                         if !self.ignore_include {
                             let file = b["`include \"".len()..].trim_end_matches('"').to_string();
                             self.include(&file, table)?;
@@ -378,6 +401,9 @@ impl<'r> G<'r> {
         format!("G{}", self.rng.below(4))
     }
     fn cond_name(&mut self) -> String {
+        if self.rng.chance(1, 8) {
+            return self.rng.pick(&["SV_COV_START", "SV_COV_TOGGLE", "SV_COV_OK"]).to_string();
+        }
         if self.rng.coin() {
             self.mname()
         } else {
@@ -432,7 +458,13 @@ impl<'r> G<'r> {
                         Line::Marker { tok: self.tok(fid) }
                     }
                 }
-                10 | 11 => Line::Usage { name: self.mname() },
+                10 | 11 => {
+                    if self.rng.chance(1, 8) {
+                        Line::Usage { name: self.rng.pick(&["SV_COV_START", "SV_COV_TOGGLE", "SV_COV_ERROR"]).to_string() }
+                    } else {
+                        Line::Usage { name: self.mname() }
+                    }
+                }
                 12 | 13 if depth > 0 => {
                     let k2 = 1 + self.rng.usize_below(2);
                     let then = self.body(fid, k2, depth - 1, neighbours);
@@ -811,6 +843,7 @@ impl C10 {
         let twin = Arc::new(Vfs::new(&sc.cwd, &sc.vfs, sc.knobs.open_budget));
         twin.begin_call(0, idx, &call.faults);
         let mut table: Table = BTreeMap::new();
+        reinstall_predefined(&mut table);
         for d in &call.defines {
             table.insert(d.name.clone(), if d.has_value { d.text.clone() } else { None });
         }
